@@ -17,6 +17,7 @@ import (
 	"strings"
 	"sync"
 	"sync/atomic"
+	"syscall"
 	"time"
 )
 
@@ -53,7 +54,9 @@ var ProbeReference func() string
 
 // Abandon: the in-process seam was found unfaithful during this (non-degraded) run; the check should stop
 // executing repository code in-process and return, main re-runs it in degraded mode.
-func (r *Run) Abandon() bool { return r.SeamInvalid != "" && !r.Degraded() && !r.CLIOnly && r.worker == nil }
+func (r *Run) Abandon() bool {
+	return r.SeamInvalid != "" && !r.Degraded() && !r.CLIOnly && r.worker == nil
+}
 
 // Degraded reports whether this run uses the CLI-only seam.
 func (r *Run) Degraded() bool { return os.Getenv("VT_DEGRADED") == "1" }
@@ -94,13 +97,16 @@ func NewRun(id, tier, replay string) *Run {
 		n, _ := strconv.Atoi(p[2])
 		r.worker = &workerSpec{stage: p[0], shard: sh, n: n, input: os.Getenv("VT_INPUT")}
 		r.trace = os.Getenv("VT_TRACE") == "1"
+		// a runaway case must kill its worker ("out of memory" crash), not the machine
+		lim := uint64(WorkerMemoryLimit)
+		syscall.Setrlimit(syscall.RLIMIT_AS, &syscall.Rlimit{Cur: lim, Max: lim})
 		go r.watchdog()
 	}
 	return r
 }
 
-func (r *Run) IsWorker() bool  { return r.worker != nil }
-func (r *Run) Thorough() bool  { return r.Tier == "thorough" }
+func (r *Run) IsWorker() bool { return r.worker != nil }
+func (r *Run) Thorough() bool { return r.Tier == "thorough" }
 func (r *Run) Pick(q, t int) int {
 	if r.Thorough() {
 		return t
@@ -118,6 +124,9 @@ func (r *Run) Inflight(s string) {
 
 const WatchdogSeconds = 20
 
+// WorkerMemoryLimit bounds the address space of one worker process.
+const WorkerMemoryLimit = 12 << 30
+
 // Tick tells the watchdog that the in-flight case is making progress (one more
 // execution of a multi-execution case finished).
 func Tick() { ticks.Add(1) }
@@ -125,23 +134,38 @@ func Tick() { ticks.Add(1) }
 var ticks atomic.Int64
 
 func (r *Run) watchdog() {
+	// A case hangs when it burns WatchdogSeconds of CPU without finishing or
+	// ticking, or shows no progress for 5 minutes of polls. Wall-clock
+	// differences are not used: a paused or overloaded machine must not look
+	// like a hang.
 	var last *string
 	var lastTick int64
-	var since time.Time
+	var sinceCPU time.Duration
+	polls := 0
 	for {
 		time.Sleep(500 * time.Millisecond)
 		cur := r.inflight.Load()
 		if t := ticks.Load(); cur != last || t != lastTick {
-			last, lastTick, since = cur, t, time.Now()
+			last, lastTick, sinceCPU, polls = cur, t, cpuTime(), 0
 			continue
 		}
-		if cur != nil && time.Since(since) > WatchdogSeconds*time.Second {
+		polls++
+		if cur != nil && (cpuTime()-sinceCPU > WatchdogSeconds*time.Second || polls > 600) {
 			f := os.NewFile(3, "out")
 			b, _ := json.Marshal(record{T: "hang", Case: *cur})
-			f.Write(append(b, '\n'))
+			// leading newline: the main goroutine may have left a partial line
+			f.Write(append(append([]byte{'\n'}, b...), '\n'))
 			os.Exit(3)
 		}
 	}
+}
+
+func cpuTime() time.Duration {
+	var ru syscall.Rusage
+	if syscall.Getrusage(syscall.RUSAGE_SELF, &ru) != nil {
+		return 0
+	}
+	return time.Duration(ru.Utime.Nano() + ru.Stime.Nano())
 }
 
 type record struct {
@@ -275,24 +299,30 @@ func Parallel[In, Out any](r *Run, stage string, in In, n int, body func(in In, 
 		go func(shard int) {
 			defer wg.Done()
 			res, hang, exit, stderr := runShard(shard, false)
+			if hang == "" && exit != 0 {
+				// find the in-flight case by re-running the shard in trace mode
+				res2, hang2, exit2, stderr2 := runShard(shard, true)
+				mu.Lock()
+				defer mu.Unlock()
+				switch {
+				case hang2 != "":
+					outs = append(outs, res...)
+					deaths = append(deaths, Death{stage, shard, "hang", hang2, tail(stderr, 4000)})
+				case exit2 == 0:
+					// the death did not repeat: the complete re-run replaces the partial results
+					fmt.Fprintf(os.Stderr, "NOTE: worker %s/%d died once (exit %d) and completed when re-run; its re-run results are used\n", stage, shard, exit)
+					outs = append(outs, res2...)
+				default:
+					outs = append(outs, res...)
+					deaths = append(deaths, Death{stage, shard, "crash", lastInflight(stderr2), tail(stderr, 4000)})
+				}
+				return
+			}
 			mu.Lock()
 			defer mu.Unlock()
 			outs = append(outs, res...)
 			if hang != "" {
 				deaths = append(deaths, Death{stage, shard, "hang", hang, tail(stderr, 2000)})
-			} else if exit != 0 {
-				mu.Unlock()
-				// find the in-flight case by re-running the shard in trace mode
-				_, hang2, _, stderr2 := runShard(shard, true)
-				mu.Lock()
-				c := hang2
-				kind := "crash"
-				if c != "" {
-					kind = "hang"
-				} else {
-					c = lastInflight(stderr2)
-				}
-				deaths = append(deaths, Death{stage, shard, kind, c, tail(stderr, 4000)})
 			}
 		}(s)
 	}
